@@ -17,7 +17,7 @@ MANIFEST = {
     'technique': 'runtime monitoring: offline order checker over recorded DDL + determinism monitor across processes/hash seeds',
 }
 LEVEL = 'exploration'
-BUDGET = {'quick': 35, 'thorough': 300}
+BUDGET = {'quick': 60, 'thorough': 300}
 RULE = ('graph-shaped documents: 9 shapes x 2..12 tables x kinds {>,<,-} per edge, random schemas; each in parsed and API-built '
         'origin; a case = one database whose CREATE TABLE order is read back; distinct by hash of (edges, table names order); '
         'non-trivial = at least one inline edge; determinism clause: a fixed set of documents rendered in every shard '
